@@ -17,6 +17,34 @@ raw bytes, so NaNs and signed zeros count).
  (A) annotate.annotate_seqlets: rows independent of the subset / order / duplication of seqlets and
      of n_jobs; idxs / p-values are those of tomtom's n_nearest on the extracted windows.
 
+Extensions (audit round):
+ - (B) also with an AMBIENT thread mask different from the default while n_jobs=k is passed
+   (numba.set_num_threads(m); tomtom(n_jobs=k); the mask must be m again afterwards - in the worker
+   the default mask equals NUMBA_NUM_THREADS, so "restore to the maximum" was indistinguishable from
+   "restore to the saved value"); long lists (24-64 entries: the configuration's queries and three
+   unrelated ones, with repeats) under 2..16 threads and chunk sizes 0/1/2/5/7, so that every thread
+   really handles several queries concurrently with the others; queries / targets given as
+   non-contiguous torch views (the form annotate_seqlets passes) next to numpy arrays; n_median_bins
+   and n_cache off their defaults (n_cache down to its lower limit n_score_bins); odd n_score_bins;
+   target sets of size 1, 2, with exact duplicates, and of 20-40 targets.
+ - (H) also right after a DIFFERENT query of the same length, after its own prefix (one column
+   shorter), after its extension (one column longer), after its reverse complement.
+ - (N) the reference row is the query ALONE with one thread (not the full matrix of the same call),
+   and n_nearest is also requested for permuted / duplicated / long lists under many threads.
+ - every result row is also checked for its field domains (p in [0, 1], score / offset / overlap /
+   strand integer-valued, score >= 0, 0 <= overlap <= min(len query, len target), -len query < offset
+   < len target, strand in {0, 1} and 0 without reverse complement): a field that is not a function of
+   (query, targets) - e.g. never written scratch - usually leaves these domains even when two calls
+   happen to see the same garbage.
+ - a ZeroDivisionError in a call whose queries all succeed alone is a violation (the result of a
+   query then depends on the co-processed ones); before, any ZeroDivisionError ended the case silently.
+ - (A) also with annotate_seqlets' own defaults (no keyword at all: n_nearest=1, n_jobs=-1, hashing),
+   seqlet tables with additional columns (float / string) and a non-default row index.
+
+Not covered: float32 / integer X or PWMs (another numba specialisation of the same kernel), motifs
+given as a MEME file name, unnormalised PWMs (offset > n_cache writes outside the scratch), an
+exception raised by tomtom itself (the thread mask is then not restored - outside the statement).
+
 Inputs where a query column is equidistant from every pooled target column are skipped (tomtom
 raises ZeroDivisionError there: no result to compare).
 """
@@ -99,30 +127,47 @@ def degenerate(Qs, Ts, rc):
 
 
 def _params(case):
-    return dict(n_score_bins=case.get('n_score_bins', 100), n_target_bins=case.get('n_target_bins'),
-                reverse_complement=case.get('rc', True))
+    p = dict(n_score_bins=case.get('n_score_bins', 100), n_target_bins=case.get('n_target_bins'),
+             reverse_complement=case.get('rc', True))
+    for k in ('n_median_bins', 'n_cache'):
+        if case.get(k) is not None:
+            p[k] = case[k]
+    return p
+
+
+def _as_form(Ms, form):
+    """'torch': every matrix as a non-contiguous float64 torch view into a wider tensor (what
+    annotate_seqlets passes: X[e, :, s:t]); otherwise the numpy arrays themselves"""
+    if form != 'torch':
+        return Ms
+    out = []
+    for M in Ms:
+        big = torch.full((4, M.shape[1] + 3), 0.25, dtype=torch.float64)
+        big[:, 2:2 + M.shape[1]] = torch.from_numpy(numpy.ascontiguousarray(M))
+        out.append(big[:, 2:2 + M.shape[1]])
+    return out
 
 
 def _run(Qs, Ts, params, sched, n_nearest=None):
-    """one real call under a schedule {'n_jobs': k} | {'mask': k} [+ 'chunk': c]; returns
+    """one real call under a schedule {'n_jobs': k} | {'mask': m} | {'mask': m, 'n_jobs': k} [+ 'chunk': c]
+    [+ 'form': 'torch']: 'mask' = ambient numba.set_num_threads(m) (n_jobs=-1 unless given); returns
     (ndarray (fields, n_queries, n_targets), violations about the thread-count restore)"""
     out = []
     before = numba.get_num_threads()
     chunk0 = numba.get_parallel_chunksize()
+    Qs, Ts = _as_form(Qs, sched.get('form')), _as_form(Ts, sched.get('form'))
     try:
         if sched.get('chunk'):
             numba.set_parallel_chunksize(sched['chunk'])
         if 'mask' in sched:
             numba.set_num_threads(sched['mask'])
-            inside = numba.get_num_threads()
-            R = tomtom(Qs, Ts, n_nearest=n_nearest, n_jobs=-1, **params)
-        else:
-            inside = before
-            R = tomtom(Qs, Ts, n_nearest=n_nearest, n_jobs=sched.get('n_jobs', 1), **params)
+        n_jobs = sched.get('n_jobs', -1 if 'mask' in sched else 1)
+        inside = numba.get_num_threads()
+        R = tomtom(Qs, Ts, n_nearest=n_nearest, n_jobs=n_jobs, **params)
         after = numba.get_num_threads()
         if after != inside:
             out.append('[num-threads-not-restored] numba.get_num_threads() was %d before tomtom(n_jobs=%r) and %d after'
-                       % (inside, sched.get('n_jobs', -1), after))
+                       % (inside, n_jobs, after))
     finally:
         numba.set_num_threads(before)
         numba.set_parallel_chunksize(chunk0)
@@ -164,6 +209,40 @@ def _fmt(row, j):
     return '(p=%r score=%r offset=%r overlap=%r strand=%r)' % tuple(float(v) for v in row[:5, j])
 
 
+def _domain(row, nq, tl, rc):
+    """row: (>= 5, m) fields of one query (length nq) against m targets of lengths tl; returns a
+    description of the first field outside its domain, or None"""
+    row = numpy.asarray(row[:5], dtype='float64')
+    tl = numpy.asarray(tl, dtype='float64')
+    if not numpy.isfinite(row).all():
+        return 'a field is not finite'
+    p, sc, off, ov, st = row
+    if ((p < -1e-9) | (p > 1 + 1e-9)).any():
+        return 'p-value outside [0, 1]'
+    for name, v in (('score', sc), ('offset', off), ('overlap', ov), ('strand', st)):
+        if (v != numpy.floor(v)).any():
+            return '%s not integer-valued' % name
+    if (sc < 0).any():
+        return 'negative score'
+    if ((st != 0) & (st != 1)).any():
+        return 'strand not in {0, 1}'
+    if not rc and (st != 0).any():
+        return 'strand 1 although reverse_complement=False'
+    if ((ov < 0) | (ov > numpy.minimum(nq, tl))).any():
+        return 'overlap outside 0..min(len(query), len(target))'
+    if ((off <= -nq) | (off >= tl)).any():
+        return 'offset outside -(len(query)-1)..len(target)-1'
+    return None
+
+
+def _baselines(case, Qs, Ts, idxs):
+    """{i: row of query i alone, one thread} or None when tomtom cannot process one of them"""
+    try:
+        return {i: _alone(case, Qs, Ts, i) for i in sorted(set(idxs))}
+    except ZeroDivisionError:
+        return None
+
+
 # ----------------------------------------------------------------------------- (B)
 def check_batch(case):
     """case: Q, T, params, 'order' (indices into Q, repeats allowed), 'sched'"""
@@ -171,15 +250,25 @@ def check_batch(case):
     if degenerate(Qs, Ts, case.get('rc', True)):
         return []
     order = case['order']
+    base = _baselines(case, Qs, Ts, order)
+    if base is None:
+        return []
     try:
         R, out = _run([Qs[i] for i in order], Ts, _params(case), case['sched'])
-        base = {i: _alone(case, Qs, Ts, i) for i in sorted(set(order))}
-    except ZeroDivisionError:
-        return []
+    except ZeroDivisionError as e:
+        return ['[schedule-dependent-exception] ZeroDivisionError (%s) for the list %s under %s although every query of it is '
+                'processed alone without error' % (e, order, case['sched'])]
     if R.shape != (5, len(order), len(Ts)):
         return out + ['[shape] result shape %s for %d queries x %d targets' % (R.shape, len(order), len(Ts))]
+    tl = [T.shape[1] for T in Ts]
     for pos, i in enumerate(order):
         row = R[:, pos]
+        d = _domain(row, Qs[i].shape[1], tl, case.get('rc', True))
+        if d is not None:
+            out.append('[field-out-of-domain] query %d (len %d) at position %d of %s under %s: %s: p=%s score=%s offset=%s '
+                       'overlap=%s strand=%s (target lengths %s)' % ((i, Qs[i].shape[1], pos, order, case['sched'], d)
+                                                                     + tuple(row[f].tolist() for f in range(5)) + (tl,)))
+            continue
         if _same(row, base[i]):
             continue
         cells = [j for j in range(len(Ts)) if not _same(row[:, j], base[i][:, j])]
@@ -196,66 +285,105 @@ POISON = [{'seed': 77, 'lens': [19], 'grid': 0, 'alpha': 1.0}, {'seed': 78, 'len
           {'seed': 79, 'lens': [6], 'grid': 0, 'alpha': 1.0}]
 
 
+def _history_lists(q, i):
+    """(name, query list, positions of q in it): the single worker thread handles q right after the
+    other entries, so its scratch slot still holds their intermediate values"""
+    long_, short_, mid_ = mats(POISON)
+    L = q.shape[1]
+    same = mats([{'seed': 800 + 31 * L + i, 'lens': [L], 'grid': 0, 'alpha': 1.0}])[0]
+    lists = [('after a length-19 query', [long_, q], [1]), ('after a length-1 query', [short_, q], [1]),
+             ('after a length-6 query', [mid_, q], [1]), ('twice in a row', [q, q], [0, 1]),
+             ('around a length-19 query', [q, long_, q], [0, 2]),
+             ('after a different query of the same length', [same, q], [1]),
+             ('after its own extension by one column', [numpy.concatenate([q, same[:, :1]], axis=1), q], [1]),
+             ('after its reverse complement', [numpy.ascontiguousarray(q[::-1, ::-1]), q], [1])]
+    if L > 1:
+        lists.append(('after its own prefix (one column shorter)', [numpy.ascontiguousarray(q[:, :-1]), q], [1]))
+    return lists
+
+
 def check_history(case):
     """query case['iq'] alone vs the same query processed by the same (single) thread right after a
-    longer / shorter / medium unrelated query, after itself, and sandwiched"""
+    longer / shorter / medium unrelated query, after itself, sandwiched, after a different query of
+    the same length, after its own prefix / extension / reverse complement"""
     Qs, Ts = mats(case['Q']), mats(case['T'])
-    if degenerate(Qs, Ts, case.get('rc', True)):
+    rc = case.get('rc', True)
+    if degenerate(Qs, Ts, rc):
         return []
     i = case['iq']
     q = Qs[i]
-    long_, short_, mid_ = mats(POISON)
     out = []
-    try:
-        base = _alone(case, Qs, Ts, i)
-        zt = None
-        for name, lst, pos in (('after a length-19 query', [long_, q], [1]), ('after a length-1 query', [short_, q], [1]),
-                               ('after a length-6 query', [mid_, q], [1]), ('twice in a row', [q, q], [0, 1]),
-                               ('around a length-19 query', [q, long_, q], [0, 2])):
-            R, o = _run(lst, Ts, _params(case), {'n_jobs': 1})
-            out += o
-            for ps in pos:
-                if not _same(R[:, ps], base):
-                    cells = [j for j in range(len(Ts)) if not _same(R[:, ps, j], base[:, j])]
-                    zt = _zero_targets(case, Qs, Ts, i) if zt is None else zt
-                    j = cells[0]
-                    out.append('[%s] query %d (len %d) %s (position %d, one thread) differs from the same query alone in %d of %d '
-                               'targets; target %d: %s vs alone %s' % ('best-score-0' if all(zt[c] for c in cells) else 'schedule-dependent-result',
-                                                                      i, q.shape[1], name, ps, len(cells), len(Ts), j, _fmt(R[:, ps], j), _fmt(base, j)))
-    except ZeroDivisionError:
+    base = _baselines(case, Qs, Ts, [i])
+    if base is None:
         return []
+    base = base[i]
+    zt = None
+    tl = [T.shape[1] for T in Ts]
+    for name, lst, pos in _history_lists(q, i):
+        if degenerate(lst, Ts, rc):
+            continue                     # the companion query cannot be processed at all
+        try:
+            R, o = _run(lst, Ts, _params(case), {'n_jobs': 1})
+        except ZeroDivisionError as e:
+            out.append('[schedule-dependent-exception] ZeroDivisionError (%s) for query %d (len %d) %s although it is processed '
+                       'alone without error' % (e, i, q.shape[1], name))
+            continue
+        out += o
+        for ps in pos:
+            d = _domain(R[:, ps], q.shape[1], tl, rc)
+            if d is not None:
+                out.append('[field-out-of-domain] query %d (len %d) %s (position %d, one thread): %s: %s'
+                           % (i, q.shape[1], name, ps, d, R[:5, ps].tolist()))
+            elif not _same(R[:, ps], base):
+                cells = [j for j in range(len(Ts)) if not _same(R[:, ps, j], base[:, j])]
+                zt = _zero_targets(case, Qs, Ts, i) if zt is None else zt
+                j = cells[0]
+                out.append('[%s] query %d (len %d) %s (position %d, one thread) differs from the same query alone in %d of %d '
+                           'targets; target %d: %s vs alone %s' % ('best-score-0' if all(zt[c] for c in cells) else 'schedule-dependent-result',
+                                                                  i, q.shape[1], name, ps, len(cells), len(Ts), j, _fmt(R[:, ps], j), _fmt(base, j)))
     return out
 
 
 # ----------------------------------------------------------------------------- (N)
 def check_nearest(case):
+    """case: Q, T, params, n_nearest, sched[, order]: every row of the n_nearest call against the row
+    of the same query ALONE with one thread and n_nearest=None"""
     Qs, Ts = mats(case['Q']), mats(case['T'])
     if degenerate(Qs, Ts, case.get('rc', True)):
         return []
     k, nt = case['n_nearest'], len(Ts)
-    try:
-        F, out = _run(Qs, Ts, _params(case), case['sched'])
-        N, out2 = _run(Qs, Ts, _params(case), case['sched'], n_nearest=k)
-    except ZeroDivisionError:
+    order = case.get('order')
+    order = list(range(len(Qs))) if order is None else order
+    base = _baselines(case, Qs, Ts, order)
+    if base is None:
         return []
-    out = out + out2
-    if N.shape != (6, len(Qs), k):
-        return out + ['[n-nearest-mismatch] result shape %s for n_nearest=%d, %d queries' % (N.shape, k, len(Qs))]
-    for iq in range(len(Qs)):
-        full, nn = F[:, iq], N[:, iq]
+    try:
+        N, out = _run([Qs[i] for i in order], Ts, _params(case), case['sched'], n_nearest=k)
+    except ZeroDivisionError as e:
+        return ['[schedule-dependent-exception] ZeroDivisionError (%s) for the list %s with n_nearest=%d under %s although every '
+                'query of it is processed alone without error' % (e, order, k, case['sched'])]
+    if N.shape != (6, len(order), k):
+        return out + ['[n-nearest-mismatch] result shape %s for n_nearest=%d, %d queries' % (N.shape, k, len(order))]
+    tl = numpy.array([T.shape[1] for T in Ts])
+    for pos, iq in enumerate(order):
+        full, nn = base[iq], N[:, pos]
         key = 'best-score-0' if _zero_targets(case, Qs, Ts, iq).any() else 'n-nearest-mismatch'
-        tag = 'query %d (len %d), n_nearest=%d of %d' % (iq, Qs[iq].shape[1], k, nt)
+        tag = 'query %d (len %d) at position %d of %s under %s, n_nearest=%d of %d' % (iq, Qs[iq].shape[1], pos, order, case['sched'], k, nt)
         idx = nn[5]
-        if not all(v == int(v) and 0 <= v < nt for v in idx) or len(set(idx.tolist())) != k:
+        if not numpy.isfinite(idx).all() or not all(v == int(v) and 0 <= v < nt for v in idx) or len(set(idx.tolist())) != k:
             out.append('[%s] %s: indices %s are not distinct target indices' % (key, tag, idx.tolist()))
             continue
         idx = idx.astype('int64')
+        d = _domain(nn, Qs[iq].shape[1], tl[idx], case.get('rc', True))
+        if d is not None:
+            out.append('[field-out-of-domain] %s: %s: %s' % (tag, d, nn[:5].tolist()))
+            continue
         if not all(nn[0, a] <= nn[0, a + 1] for a in range(k - 1)):
             out.append('[%s] %s: p-values not ascending: %s' % (key, tag, nn[0].tolist()))
         if not _same(numpy.sort(full[0])[:k], numpy.sort(nn[0])):
-            out.append('[%s] %s: p-values %s are not the %d smallest of the full row %s' % (key, tag, nn[0].tolist(), k, full[0].tolist()))
+            out.append('[%s] %s: p-values %s are not the %d smallest of the row of the query alone %s' % (key, tag, nn[0].tolist(), k, full[0].tolist()))
         if not _same(numpy.ascontiguousarray(full[:, idx]), numpy.ascontiguousarray(nn[:5])):
-            out.append('[%s] %s: fields differ from the full row at the listed indices %s' % (key, tag, idx.tolist()))
+            out.append('[%s] %s: fields differ from the row of the query alone at the listed indices %s' % (key, tag, idx.tolist()))
     return out
 
 
@@ -271,39 +399,66 @@ def _annot_inputs(case):
     return X, motifs
 
 
+def _seqlet_table(rows, case):
+    """the seqlet DataFrame; 'extra_cols': further (float, string) columns after the three used ones;
+    'reindex': a descending, non-contiguous row index as left behind by filtering / sorting"""
+    df = pandas.DataFrame([list(r) for r in rows], columns=['example_idx', 'start', 'end'])
+    if case.get('extra_cols'):
+        df['attribution'] = [0.5 + r[1] / 7.0 for r in rows]
+        df['name'] = ['s%d' % r[2] for r in rows]
+    if case.get('reindex'):
+        df.index = [3 * j + 5 for j in range(len(rows))][::-1]
+    return df
+
+
 def check_annotate(case):
-    """case: xseed, n_examples, length, seqlets [[ex, start, end]...], T (motifs), order, n_nearest, n_jobs, rc"""
+    """case: xseed, n_examples, length, seqlets [[ex, start, end]...], T (motifs), order, n_nearest, n_jobs, rc
+    [, defaults: call annotate_seqlets(X, seqlets, motifs) without any keyword][, extra_cols][, reindex]"""
     X, motifs = _annot_inputs(case)
     seq = case['seqlets']
-    kw = dict(_params(case))
+    defaults = bool(case.get('defaults'))
+    kw = {} if defaults else dict(_params(case))
     Qs = [X[e, :, s:t].numpy() for e, s, t in seq]
     Ts = [m.numpy() for m in motifs.values()]
     if degenerate(Qs, Ts, case.get('rc', True)):
         return []
-    k, nt, order = case['n_nearest'], len(Ts), case['order']
+    nt, order = len(Ts), case['order']
     before = numba.get_num_threads()
     out = []
     try:
-        df = pandas.DataFrame([seq[i] for i in order], columns=['example_idx', 'start', 'end'])
-        idxs, pvals = annotate_seqlets(X, df, motifs, n_nearest=k, n_jobs=case['n_jobs'], **kw)
+        try:
+            base = {}
+            for i in sorted(set(order)):
+                d1 = pandas.DataFrame([seq[i]], columns=['example_idx', 'start', 'end'])
+                if defaults:
+                    base[i] = annotate_seqlets(X, d1, motifs, n_jobs=1)
+                else:
+                    base[i] = annotate_seqlets(X, d1, motifs, n_nearest=case['n_nearest'], n_jobs=1, **kw)
+            F = {i: numpy.ascontiguousarray(tomtom([Qs[i]], Ts, n_jobs=1, **kw).numpy())[:, 0] for i in sorted(set(order))}
+        except ZeroDivisionError:
+            return []
+        k = int(base[order[0]][0].shape[1]) if defaults else case['n_nearest']
+        df = _seqlet_table([seq[i] for i in order], case)
+        try:
+            if defaults:
+                idxs, pvals = annotate_seqlets(X, df, motifs)
+            else:
+                idxs, pvals = annotate_seqlets(X, df, motifs, n_nearest=k, n_jobs=case['n_jobs'], **kw)
+        except ZeroDivisionError as e:
+            return ['[schedule-dependent-exception] ZeroDivisionError (%s) for the seqlets %s although each of them is annotated '
+                    'alone without error' % (e, order)]
         if numba.get_num_threads() != before:
             out.append('[num-threads-not-restored] numba.get_num_threads() changed across annotate_seqlets')
-        base = {}
-        for i in sorted(set(order)):
-            d1 = pandas.DataFrame([seq[i]], columns=['example_idx', 'start', 'end'])
-            base[i] = annotate_seqlets(X, d1, motifs, n_nearest=k, n_jobs=1, **kw)
-        F = {i: _run([Qs[i]], Ts, kw, {'n_jobs': 1})[0][:, 0] for i in sorted(set(order))}
-    except ZeroDivisionError:
-        return []
     finally:
         numba.set_num_threads(before)
+    nj = 'default' if defaults else case['n_jobs']
     if tuple(idxs.shape) != (len(order), k) or tuple(pvals.shape) != (len(order), k) or idxs.dtype != torch.int32:
         return out + ['[annotate-shape] idxs %s %s / p-values %s for %d seqlets, n_nearest=%d'
                       % (tuple(idxs.shape), idxs.dtype, tuple(pvals.shape), len(order), k)]
     for pos, i in enumerate(order):
         bi, bp = base[i]
         zero = bool(_zero_targets(dict(case, Q=[q.tolist() for q in Qs]), Qs, Ts, i).any())
-        tag = 'seqlet %d %s at position %d of %s (n_jobs=%d)' % (i, seq[i], pos, order, case['n_jobs'])
+        tag = 'seqlet %d %s at position %d of %s (n_jobs=%s)' % (i, seq[i], pos, order, nj)
         if not (_same(idxs[pos].numpy(), bi[0].numpy()) and _same(pvals[pos].numpy(), bp[0].numpy())):
             out.append('[%s] %s: (idxs, p) %s %s differ from the seqlet annotated alone %s %s'
                        % ('best-score-0' if zero else 'schedule-dependent-result', tag, idxs[pos].tolist(), pvals[pos].tolist(),
